@@ -58,6 +58,10 @@ OPTIONS = {
     "disable_int_bool": (["--disable-str-serializable-types", "int", "BooleanString"], {"disable": ["int", "BooleanString"]}),
     "preamble": (["--preamble", "  X = 1  # preamble text  "], {"preamble": "  X = 1  # preamble text  "}),
     "f_attrs_meta": (["-f", "attrs", "--code-generator-kwargs", "meta=true"], {"fw": "attrs", "extra": {"meta": True}}),
+    # the stock generators named by import path: every dedicated option still has to reach them
+    "f_custom_pydantic": (["-f", "custom", "--code-generator", "json_to_models.models.pydantic.PydanticModelCodeGenerator"], {"fw": "pydantic"}),
+    "f_custom_attrs": (["-f", "custom", "--code-generator", "json_to_models.models.attr.AttrsModelCodeGenerator"], {"fw": "attrs"}),
+    "f_custom_dataclasses": (["-f", "custom", "--code-generator", "json_to_models.models.dataclasses.DataclassModelCodeGenerator"], {"fw": "dataclasses"}),
     "f_dataclasses_meta": (["-f", "dataclasses", "--code-generator-kwargs", "meta=true"], {"fw": "dataclasses", "extra": {"meta": True}}),
 }
 FRAMEWORK_OPTS = [o for o in OPTIONS if o.startswith("f_")]
@@ -155,7 +159,8 @@ def _cases(tier):
                    "opts": opts, "out": "stdout" if len(opts) == 1 or sname != "S3" else "file"}
     # (D) a model name whose file contributes zero samples (top-level [] or an empty list under the lookup): alone, first / last of
     # several names, first occurrence of a repeated name
-    for variant in ("only", "first_of_repeat", "last", "wrapped_first", "middle"):
+    for variant in ("only", "first_of_repeat", "last", "wrapped_first", "middle", "empty_object_file", "empty_object_only", "empty_object_lookup",
+                    "empty_object_l"):
         for opts in ([], ["f_pydantic"], ["f_attrs", "s_nested"], ["f_dataclasses", "merge_exact"]):
             for out in ("stdout", "file"):
                 yield {"s": "EMPTY", "fmt": "json", "comp": [[0]], "form": variant, "arg": "m_each", "opts": opts, "out": out}
@@ -208,6 +213,17 @@ def materialise(case, d):
             return ["-m", "User", "u.json", "-m", "Order", "e.json"], [[("User", s1[:2]), ("Order", [])]]
         if v == "wrapped_first":
             return ["-m", "Empty", "d.items", "ew.json", "-m", "User", "u.json"], [[("Empty", []), ("User", s1[:2])]]
+        # a sample that is the empty object {} is a sample (it makes every field of the model optional)
+        put("eo.json", {})
+        put("eow.json", {"d": {"item": {}, "n": 0}})
+        if v == "empty_object_file":
+            return ["-m", "User", "u.json", "-m", "User", "eo.json"], [[("User", s1[:2] + [{}])]]
+        if v == "empty_object_only":
+            return ["-m", "Empty", "eo.json", "-m", "User", "u.json"], [[("Empty", [{}]), ("User", s1[:2])]]
+        if v == "empty_object_lookup":
+            return ["-m", "User", "d.item", "eow.json", "-m", "User", "u.json"], [[("User", [{}] + s1[:2])]]
+        if v == "empty_object_l":
+            return ["-l", "User", "-", "u.json", "-l", "User", "d.item", "eow.json"], [[("User", s1[:2] + [{}])]]
         if v == "middle":
             return ["-m", "User", "u.json", "-m", "Empty", "e.json", "-m", "Order", "o.json"], [[("User", s1[:2]), ("Empty", []), ("Order", s1[2:])]]
         raise ValueError(v)
